@@ -65,6 +65,7 @@ var mutations = map[string]mutation{
 		{"kmipclient/client.go", "\tdialer := opts.dialer\n\tif dialer == nil {\n\t\tdialer = func(ctx context.Context) (net.Conn, error) {\n\t\t\ttlsDialer := tls.Dialer{\n\t\t\t\tConfig: tlsCfg,\n\t\t\t}\n\t\t\treturn tlsDialer.DialContext(ctx, \"tcp\", addr)", "\tdialer := opts.dialer\n\tif dialer == nil {\n\t\tdialCtx0 := ctx\n\t\tdialer = func(ctx context.Context) (net.Conn, error) {\n\t\t\ttlsDialer := tls.Dialer{\n\t\t\t\tConfig: tlsCfg,\n\t\t\t}\n\t\t\treturn tlsDialer.DialContext(dialCtx0, \"tcp\", addr)"},
 	}},
 	"c08-handshake-without-context": one("C08", "kmipserver/server.go", "tcon.HandshakeContext(srv.ctx)", "tcon.Handshake()"),
+	"c16-handshake-without-context": one("C16", "kmipserver/server.go", "tcon.HandshakeContext(srv.ctx)", "tcon.Handshake()"),
 	// wave 15 dimensions
 	"c13-response-version-must-match": one("C13", "kmipclient/client.go", "\t\tresp, err := c.conn.roundtrip(ctx, msg)\n\t\tif err == nil {\n\t\t\treturn resp, nil\n\t\t}", "\t\tresp, err := c.conn.roundtrip(ctx, msg)\n\t\tif err == nil {\n\t\t\tif resp.Header.ProtocolVersion != msg.Header.ProtocolVersion {\n\t\t\t\treturn nil, errors.New(\"unexpected protocol version in response\")\n\t\t\t}\n\t\t\treturn resp, nil\n\t\t}"),
 	"c15-detached-global-holder": {"C15", []edit{
